@@ -12,7 +12,8 @@ steps (JSON lists):
   ["del", oid]                      drop the last reference (address / id reuse by later objects)
   ["setarr", name, values]          new float64 array, or IN-PLACE update when `name` exists with the same length
   ["newarr", name, values]          always a new array object (equal contents, different identity)
-  ["call", oid, meth, args]         args: float | {"arr": name} | {"sc": value, "t": scalar form}      -> ["ok", bits] | ["err", cls]
+  ["scribble", name, value]         name[...] = value in place (also for arrays RETURNED by an earlier call saved with a 5th element)
+  ["call", oid, meth, args, save?]  args: float | {"arr": name} | {"sc": value, "t": scalar form}      -> ["ok", bits] | ["err", cls]
 """
 import json
 import os
@@ -57,6 +58,9 @@ def execute(steps, K):
             elif kind == "newarr":
                 arrs[st[1]] = np.array(st[2], dtype="f8")
                 out.append(None)
+            elif kind == "scribble":                       # the caller overwrites an array it owns (argument or returned result)
+                arrs[st[1]][...] = st[2]
+                out.append(None)
             elif kind == "call":
                 args = []
                 for a in st[3]:
@@ -67,6 +71,8 @@ def execute(steps, K):
                     else:
                         args.append(float(a))
                 res = getattr(objs[st[1]], st[2])(*args)
+                if len(st) > 4 and st[4] and isinstance(res, np.ndarray):
+                    arrs[st[4]] = res                      # the caller keeps the RETURNED array under this name
                 vals = [C11.bits(v) for v in np.atleast_1d(np.asarray(res, dtype="f8")).ravel()]
                 out.append(["ok", vals])
             else:
